@@ -139,6 +139,7 @@ MONO = ("C05", "monotone", "is_suffix(final(s).rest(), old(s).rest())")
 BYTE = ("C05,C18", "decodes", "r is Ok ==> old(s).rest().len() >= 1 && r->Ok_0 == old(s).rest()[0] && final(s).rest() =~= old(s).rest().skip(1)")
 WFRAME = (None, "err-prefix", "is_prefix(old(s).written(), final(s).written())")
 B = "let ghost b = s.rest();"
+PER_INT_ERR = r'Err\(Error::RdpError\(RdpError::new\(RdpErrorKind::InvalidSize, "PER integer encoded with an invalid size"\)\)\)'
 
 UNIT = Unit("per", ["base.rs", "model.rs", "leaf.rs", "lemmas.rs"], [
     per_specs,
@@ -165,19 +166,28 @@ UNIT = Unit("per", ["base.rs", "model.rs", "leaf.rs", "lemmas.rs"], [
        ensures=[("C18", "encodes", "r is Ok ==> final(s).written() =~= old(s).written() + seq![number_of_set]"), WFRAME]),
     Fn(PER, "read_enumerates", mod="per", props=["C05"], ensures=[BYTE, MONO]),
     Fn(PER, "write_enumerates", mod="per", props=["C18"], ensures=["r is Ok && r->Ok_0 == enumerate"]),
-    Fn(PER, "read_integer", mod="per", props=["C05", "C18"],
+    Fn(PER, "read_integer", mod="per", props=["C05", "C18", "C03"],
+       # refusal justification (the site is a match arm `_ => Err(..)`: the claim opens a block around the arm expression, on a line of its own so that a failure is attributed to it, hint #0 closes the block):
+       # an INTEGER is refused for its size only when the length determinant is none of 1, 2, 4
+       claims=[(PER_INT_ERR, 1, "{\nproof { assert(old(s).rest().len() >= per_len_dec(old(s).rest()).1 && !per_int_len_ok(old(s).rest())); }", "at", "C18,C03", "refused-only-for-a-length-other-than-1-2-4")],
+       hints=[(PER_INT_ERR, 1, "}", "atend")],
        ensures=[("C05,C18", "decodes", "r is Ok ==> per_int_len_ok(old(s).rest()) && old(s).rest().len() >= per_int_dec(old(s).rest()).1 && r->Ok_0 == per_int_dec(old(s).rest()).0 && final(s).rest() =~= old(s).rest().skip(per_int_dec(old(s).rest()).1)"),
                 MONO]),
     Fn(PER, "write_integer", mod="per", props=["C18"],
        ensures=[("C18", "encodes", "r is Ok ==> final(s).written() =~= old(s).written() + per_int(integer)")]),
-    Fn(PER, "read_integer_16", mod="per", props=["C05", "C18"],
+    Fn(PER, "read_integer_16", mod="per", props=["C05", "C18", "C03"],
+       # C03 "any assigned user id / channel ids": a value is refused as out of range only when wire + minimum really exceeds 16 bits (65535 is valid)
+       claims=[(r"return Err\(.*out of range", 1, "proof { assert(u16_be(old(s).rest()[0], old(s).rest()[1]) as int + minimum as int > 0xFFFF); }", "before", "C03,C18", "refused-only-above-65535")],
        ensures=[("C05,C18", "decodes", "r is Ok ==> old(s).rest().len() >= 2 && r->Ok_0 as int == u16_be(old(s).rest()[0], old(s).rest()[1]) as int + minimum as int && final(s).rest() =~= old(s).rest().skip(2)"),
                 MONO]),
     Fn(PER, "write_integer_16", mod="per", props=["C18"],
        requires=["integer >= minimum"],
        ensures=[("C18", "encodes", "r is Ok ==> final(s).written() =~= old(s).written() + per_u16(integer, minimum)"), WFRAME]),
     # the length determinant may be the (non canonical) two byte form 0x80 0x05: positions are relative to d.1 = per_len_dec(b).1
-    Fn(PER, "read_object_identifier", mod="per", props=["C05", "C18"],
+    Fn(PER, "read_object_identifier", mod="per", props=["C05", "C18", "C03"],
+       # refusal justification: the caller's reference oid is not six arcs / the length determinant on the wire is not 5
+       claims=[(r"return Err\(.*Oid to check have an invalid size", 1, "proof { assert(oid@.len() != 6 && s.rest() == old(s).rest()); }", "before", "C18,C03", "reference-refused-only-when-not-six-arcs"),
+               (r"return Err\(.*Oid source have an invalid size", 1, "proof { assert(per_len_dec(old(s).rest()).0 != 5); }", "before", "C18,C03", "refused-only-when-the-length-is-not-5")],
        ensures=[("C18", "compares-all-six-arcs", "r is Ok ==> ({ let b = old(s).rest(); let d = per_len_dec(b); oid@.len() == 6 && d.0 == 5 && b.len() >= d.1 + 5 && (r->Ok_0 <==> (forall|k: int| 0 <= k < 6 ==> #[trigger] oid@[k] == (if k == 0 { b[d.1] >> 4 } else if k == 1 { b[d.1] & 0xf } else { b[d.1 - 1 + k] }))) && final(s).rest() =~= b.skip(d.1 + 5) })"),
                 ("C18", "canonical-length", "r is Ok && old(s).rest()[0] & 0x80 == 0 ==> old(s).rest()[0] == 5 && old(s).rest().len() >= 6 && final(s).rest() =~= old(s).rest().skip(6)"),
                 MONO],
@@ -200,8 +210,13 @@ UNIT = Unit("per", ["base.rs", "model.rs", "leaf.rs", "lemmas.rs"], [
     Fn(PER, "write_padding", mod="per", props=["C18"],
        ensures=[("C18", "encodes", "r is Ok ==> final(s).written().len() == old(s).written().len() + length"), WFRAME]),
     # `read_length(s)? as usize + minimum`: overflow unless the caller's constant is bounded (the caller passes 4)
-    Fn(PER, "read_octet_stream", mod="per", props=["C05", "C18"],
+    Fn(PER, "read_octet_stream", mod="per", props=["C05", "C18", "C03"],
        requires=["minimum <= 0xffff"],
+       # refusal justification: the announced length (+ lower bound) differs from the expected string's / some announced byte differs from the expected one
+       claims=[(r"return Err\(.*source octet string have an invalid size", 1, "proof { assert(per_len_dec(old(s).rest()).0 as int + minimum as int != octet_stream@.len()); }", "before", "C18,C03", "refused-only-when-the-announced-length-differs"),
+               (r"return Err\(.*source octet string have an invalid char", 1, """proof { let b0 = old(s).rest(); let d0 = per_len_dec(b0);
+                   assert(octet_stream@[i as int] != b0[d0.1 + i]);
+                   assert(exists|k: int| 0 <= k < octet_stream@.len() && d0.1 + k < b0.len() && #[trigger] octet_stream@[k] != b0[d0.1 + k]); }""", "before", "C18,C03", "refused-only-when-a-byte-differs")],
        ensures=[("C18", "compares", "r is Ok ==> ({ let b = old(s).rest(); let d = per_len_dec(b); b.len() >= d.1 + octet_stream@.len() && d.0 as int + minimum == octet_stream@.len() && b.subrange(d.1, d.1 + octet_stream@.len()) =~= octet_stream@ && final(s).rest() =~= b.skip(d.1 + octet_stream@.len()) })"),
                 MONO],
        pre=B + " let ghost d = per_len_dec(b);",
